@@ -32,8 +32,26 @@ Definition run_case (c : sexp) : sexp :=
   else if head_is c "read" then
     SList (map sexp_of_read_out (read_many (N.to_nat (get_N (arg c 1))) (get_N (arg c 0)) [] (get_bytes (arg c 2))))
   else if head_is c "shake-server" then
-    let '(out, ok, m) := server_handshake (get_N (arg c 0)) (get_bytes (arg c 1)) in
-    SList [SBytes out; sbool ok; snat m]
+    (* reply bytes, accepted?, and what the handler sees of the request that follows the handshake
+       when it is read under the adopted msize *)
+    let own := get_N (arg c 0) in
+    let s := get_bytes (arg c 1) in
+    let '(out, ok, m) := server_handshake own s in
+    let seen :=
+      if ok then
+        let '(_, _, rest) := read_fcall own [] s in
+        match read_fcall m [] rest with
+        | (RMsg f, _, _) =>
+            if fc_type f =? T_Tread then
+              match fc_fields f with
+              | [_; _; VF (FInt _ cnt)] => SList [ssym "tread"; snat cnt]
+              | _ => ssym "other"
+              end
+            else ssym "other"
+        | _ => ssym "none"
+        end
+      else ssym "none" in
+    SList [SBytes out; sbool ok; seen]
   else if head_is c "shake-client" then
     let '(out, ok, m) := client_handshake (get_N (arg c 0)) (get_bytes (arg c 1)) in
     SList [SBytes out; sbool ok; snat m]
